@@ -23,10 +23,15 @@ class StreamModel(Model):
     clone/close."""
 
     def __init__(self, size=1, senders=("A", "B"), receivers=("C", "D"), clones=(),
-                 closing=False, max_items=4, nowait=True):
+                 closing=False, max_items=4, nowait=True, focus=None, closers=None, cloning=True):
         super().__init__(size=size, senders=list(senders), receivers=list(receivers),
                          clones=list(clones), closing=closing, max_items=max_items,
-                         nowait=nowait)
+                         nowait=nowait, **({"focus": focus} if focus else {}),
+                         **({"closers": list(closers)} if closers is not None else {}),
+                         **({} if cloning else {"cloning": False}))
+        self.cloning = cloning
+        self.focus = focus
+        self.closers = closers
         self.size = size
         self.senders = list(senders)
         self.receivers = list(receivers)
@@ -75,12 +80,12 @@ class StreamModel(Model):
                     ops.append(["recv", h])
                     if self.nowait:
                         ops.append(["recv_nowait", h])
-        if self.closing:
+        if self.closing and (self.closers is None or a in self.closers):
             for h in sorted(hs):
                 ops.append(["close", h])
-            if "s1" not in hs:
+            if "s1" not in hs and self.cloning:
                 ops.append(["clone", "s0", "s1"])
-            if "r1" not in hs:
+            if "r1" not in hs and self.cloning:
                 ops.append(["clone", "r0", "r1"])
         return ops
 
@@ -124,11 +129,34 @@ class StreamModel(Model):
         return evs
 
     def check(self, r):
+        v = direct_truth(r.log)
         try:
             check_stream_log(r.log, _inf(self.size), ["s0", "r0"] + self.clones)
         except Mismatch as e:
-            return [str(e)]
-        return []
+            # with a focus, anomalies that belong to the other stream property do not end the
+            # search here (that property's own check reports them): the direct oracle keeps
+            # watching the states behind them
+            if not self.focus or self.focus in str(e):
+                v.append(str(e))
+        return v
+
+
+def direct_truth(log):
+    """Errors must tell the truth about the stream at the instant they surface (no reference
+    automaton involved): EndOfStream only with no open send handle and an empty buffer,
+    BrokenResourceError only with no open receive handle."""
+    v = []
+    for e in log:
+        if e[2] != "truth":
+            continue
+        used, osend, orecv = e[6]
+        if e[5] == "EndOfStream" and (used or osend):
+            v.append(f"[C13] {e[3]} got EndOfStream while the stream reports {used} buffered "
+                     f"item(s) and {osend} open send handle(s)")
+        if e[5] == "BrokenResourceError" and orecv:
+            v.append(f"[C13] {e[3]} got BrokenResourceError while the stream reports {orecv} "
+                     f"open receive handle(s)")
+    return v
 
 
 # ---------------------------------------------------------------------------------------
